@@ -69,6 +69,14 @@ def main(args):
                 known_counts[f["id"]] = known_counts.get(f["id"], 0) + len(hit)
             for v in res["violations"]:
                 viols.append({"scenario": f["scenario"], "violation": v, "pass": "directed"})
+    # regressions of fixed findings (a fixed entry suppresses nothing)
+    for f in findings.load():
+        if f["property"] == PROP and f["status"] == "fixed" and str(f.get("regression", "")).endswith(".json"):
+            with open(os.path.join(driver.VERIF_DIR, f["regression"])) as fh:
+                rscn = json.load(fh)["scenario"]
+            res = gen14.execute(rscn)
+            for v in res["violations"]:
+                viols.append({"scenario": rscn, "violation": v, "pass": "regression:" + f["id"]})
     seeds = [seed * 1000003 + i for i in range(n_runs)]
     try:
         results = run_pool(_seed_task, [(s, {}) for s in seeds], workers=args.workers, task_timeout=300,
